@@ -3,3 +3,4 @@ pub mod slot;
 pub mod shape;
 pub mod parse;
 pub mod group;
+pub mod eg;
